@@ -116,3 +116,72 @@ def has_colour_params(params) -> bool:
             return True
         k += 1
     return False
+
+
+class Screen:
+    """A VT100-subset screen: CR, LF (with implicit CR), CSI n A, CSI 2K, CSI ?25 h/l; SGR and OSC 8 are ignored.
+    `height` rows are visible; output below the bottom scrolls; the cursor cannot move above the visible top."""
+
+    def __init__(self, height=24):
+        self.rows = [[]]
+        self.row = 0
+        self.col = 0
+        self.height = height
+        self.cursor_visible = True
+        self.hit_top = False          # a cursor-up tried to go above the visible screen
+        self.min_row_after_up = None
+
+    @property
+    def top(self):
+        return max(0, len(self.rows) - self.height)
+
+    def feed(self, s):
+        i, n = 0, len(s)
+        while i < n:
+            ch = s[i]
+            if ch == "\x1b":
+                if s.startswith("\x1b[", i):
+                    j = i + 2
+                    while j < n and not ("@" <= s[j] <= "~"):
+                        j += 1
+                    body, final = s[i + 2:j], (s[j] if j < n else "")
+                    if final == "A":
+                        k = int(body) if body.isdecimal() else 1
+                        if self.row - k < self.top:
+                            self.hit_top = True
+                        self.row = max(self.top, self.row - k)
+                    elif final == "K" and body == "2":
+                        self.rows[self.row] = []
+                    elif final in ("h", "l") and body == "?25":
+                        self.cursor_visible = final == "h"
+                    i = j + 1
+                    continue
+                if s.startswith("\x1b]", i):
+                    j = s.find("\x1b\\", i)
+                    i = (j + 2) if j >= 0 else n
+                    continue
+                i += 2
+                continue
+            if ch == "\r":
+                self.col = 0
+            elif ch == "\n":
+                self.row += 1
+                self.col = 0
+                while self.row >= len(self.rows):
+                    self.rows.append([])
+            elif ch >= " ":
+                line = self.rows[self.row]
+                while len(line) < self.col:
+                    line.append(" ")
+                if self.col < len(line):
+                    line[self.col] = ch
+                else:
+                    line.append(ch)
+                self.col += 1
+            i += 1
+
+    def lines(self):
+        out = ["".join(r).rstrip() for r in self.rows]
+        while out and not out[-1]:
+            out.pop()
+        return out
